@@ -15,7 +15,7 @@ import TraitsVerif.Model.PyValidate
 import TraitsVerif.Model.Domain
 import TraitsVerif.Model.Assign
 namespace TraitsVerif.Driver.Val
-open TraitsVerif TraitsVerif.Py TraitsVerif.Model TraitsVerif.Proto
+open TraitsVerif TraitsVerif.Py.Value TraitsVerif.Model.Val TraitsVerif.Proto
 
 /-! ## s-expressions -/
 
